@@ -1,10 +1,12 @@
 //! C37 / C38: in-process Raft clusters (see c37.rs, c38.rs).
 mod c37;
+mod c38;
 
 fn main() {
     let args = mc::parse_args();
     match args.prop.as_str() {
         "C37" => c37::run(&args),
-        _ => mc::machinery_error("h_raft2 serves C37 (C38 not built yet)"),
+        "C38" => c38::run(&args),
+        _ => mc::machinery_error("h_raft2 serves C37 and C38"),
     }
 }
